@@ -33,7 +33,7 @@ from vlib import symx, ressym as RS
 from vlib.harness import pmap
 from vlib.symx import Sym, term
 from vlib.ressym import (Rel, g_sqrt, g_erf, g_and, g_or, g_not, g_ite, g_max, g_min, g_sum, g_abs,
-                         MINRES, NLOW, NHIGH, SQRT2, bin_edges_ref)
+                         NLOW, NHIGH, SQRT2, bin_edges_ref)
 from props import c03
 
 PID = "C04"
@@ -261,14 +261,18 @@ def p2_rotation_lemma(scn, v, o):
             phi = math.atan(qy / qx)
             c, s_ = math.cos(-phi), math.sin(-phi)
         r = g_sqrt(qx * qx + qy * qy)
-        out.append(Rel("eq", c * r, g_abs(qx), "|q| cos(phi_q) = |qx| (point %d)" % i))
-        out.append(Rel("eq", s_ * r, g_ite(qx > 0, -qy, qy), "|q| sin(-phi_q) = -qy sign(qx) (point %d)" % i))
+        out.append(Rel("eq", c * r, qx, "|q| cos(phi_q) = qx for qx > 0 (point %d)" % i, when=qx > 0))
+        out.append(Rel("eq", s_ * r, -qy, "|q| sin(-phi_q) = -qy for qx > 0 (point %d)" % i, when=qx > 0))
+        out.append(Rel("eq", c * r, -qx, "|q| cos(phi_q) = -qx for qx < 0 (point %d)" % i, when=g_not(qx > 0)))
+        out.append(Rel("eq", s_ * r, qy, "|q| sin(-phi_q) = qy for qx < 0 (point %d)" % i, when=g_not(qx > 0)))
     return out
 
 
 class _CloudOf:
     """cloud obligation of one data point and one azimuth (data points are
     independent; small polynomial queries are decided much faster than their conjunction)."""
+
+    slice = True      # hypotheses about the other data points are irrelevant (and slow nlsat down)
 
     def __init__(self, i, b):
         self.i, self.b = i, b
@@ -317,7 +321,7 @@ def classify(scn, oname, v, o_sym, vals=None, bad=()):
             and np.asarray(vals["qx"])[int(oname.rsplit("-", 1)[1]) if oname.startswith("cloud-point-") else 0] < 0:
         key = "%s/pinhole2d/cloud-centred-at-minus-q-for-negative-qx" % PID
         i = int(oname.rsplit("-", 1)[1]) if oname.startswith("cloud-point-") else 0
-        block = term(v["qx"][i]) < 0
+        block = z3.Not(term(v["qx"][i]) > 0)
     return key, block
 
 
@@ -347,11 +351,11 @@ def configs(chk):
         for mode in ("L", "W", "LW"):
             jobs.append(("slit1d", {"mode": mode, "shape": "vector", "n": n}))
         jobs.append(("slit1d", {"mode": "LW", "shape": "scalar", "n": n, "grid": "user", "nc": 3}))
-    # data points are independent in the 2-D code; two points only to pin the interleaving of the cloud arrays
     for acc in (("low", "med") if quick else ("low", "med", "high", "xhigh")):
-        jobs.append(("pinhole2d", {"n": 1, "accuracy": acc}))
-    for acc in (("low",) if quick else ("low", "med")):
-        jobs.append(("pinhole2d", {"n": 2, "accuracy": acc}))
+        for n in (1, 2):
+            if n == 2 and acc == "xhigh":
+                continue
+            jobs.append(("pinhole2d", {"n": n, "accuracy": acc}))
     return jobs
 
 
